@@ -207,6 +207,7 @@ func (w *Worker) runPath(h *ssa.Function, prefix []int, sh *shared) {
 	w.clockLast = nil
 	w.observes = w.observes[:0]
 	w.smtReads = nil
+	w.hashApps = nil
 	w.gor = nil
 	var newq [][]int
 	w.dc = &dctx{prefix: prefix, queue: &newq}
